@@ -10,8 +10,8 @@ RULE = ("random arrays of 1-3 D x 12 dtypes (bool, 8 ints, 2 floats, values incl
         "out= buffer; the result is compared with the extracted Coq model and with an independent evaluation of the "
         "definition (equivalence closure of in-image adjacencies + first-appearance numbering). thorough: all boolean images "
         "<=4x4 with 4-/8-neighbourhoods and all 512 3x3 elements on all images <=3x3. Non-trivial: >=2 non-zero pixels")
-NOT_PROVED = ["union-find (find with path compression, join) is modelled by its specification (class merge); the partition is "
-              "tied to the real pointer structure by correspondence only",
+NOT_PROVED = ["both Coq models (class merging, and the parent-array union-find with path compression proved equal to it) are "
+              "hand-written models of _labeled.cpp: their tie to the compiled code is the correspondence check",
               "std::map is modelled as an association list"]
 BUDGET_S = {"quick": 100, "thorough": 1200}
 DTYPES = ["bool", "uint8", "int8", "uint16", "int16", "uint32", "int32", "uint64", "int64", "float32", "float64"]
